@@ -291,10 +291,11 @@ def run(ctx):
         who = f.info.get("self_adt", "?").split("::")[-1]
         # the returned bool on the paused path derives from (now - start) >= PAUSE_DURATION_SECONDS
         found = None
+        ral = ret_aliases(f)
         for bi, bb in enumerate(f.blocks):
             for s in bb["s"]:
                 v = s.get("v")
-                if v and v["r"] == "bin" and v["op"] in ("Ge", "Le", "Gt", "Lt") and s["d"]["l"] == 0:
+                if v and v["r"] == "bin" and v["op"] in ("Ge", "Le", "Gt", "Lt") and s["d"]["l"] in ral and not s["d"].get("p"):
                     a = ctx.slicer.operand(f, v["a"][0])
                     b = ctx.slicer.operand(f, v["a"][1])
                     found = (v["op"], a, b, bi)
